@@ -37,6 +37,9 @@ def panicSites : List String := [
   "csv.OptionalColumn.ReadOr: index c.f.currentRow.cells[c.i]  [unguarded: csv: index []string]",
   "csv.RequiredColumn.Read: index c.f.currentRow.cells[c.i]  [unguarded: csv: index []string]",
   "csv.RequiredColumn.Read: index r.cells[c.i]  [guard: bounds-checked]",
+  "csv.hasBOM: index head[0]  [guard: len-checked]",
+  "csv.hasBOM: index head[1]  [guard: len-checked]",
+  "csv.hasBOM: index head[2]  [guard: len-checked]",
   "extensions/nyctalerts.buildMetadata: assert proto.GetExtension(alert, gtfsrt.E_MercuryAlert).(*gtfsrt.MercuryAlert)  [unguarded: extensions/nyctalerts: assert interface{}]",
   "extensions/nyctalerts.buildMetadata: index activePeriodTranslations[0]  [guard: len-checked]",
   "extensions/nyctalerts.extension.UpdateAlert: deref *ID  [unguarded: extensions/nyctalerts: deref *string]",
